@@ -79,7 +79,8 @@ class Round:
     def __init__(self, prog: Program) -> None:
         self.prog = prog
         self.raw = prog.func(f"{FE}.apply")
-        self.fn = spliced(prog, self.raw)
+        # one round as a unit of behaviour: every private callee read in, except the (role-bound) synchronisation
+        self.fn = inline_all(prog, self.raw, stop={SYNC})
         self.fl = fl = Flow(prog, self.fn)
         waits = [(nid, c) for nid, c in fl.calls(lambda c: _asyncio_name(fl, c.func, "wait"))
                  if isinstance(fl._parent.get(id(c)), ast.Await)]
@@ -806,7 +807,8 @@ def check_sync(run: Run, prog: Program, rule: str = "C06.SYNC") -> None:
                         continue
                     src = fl.origin1(c.func.value, nid)  # type: ignore[union-attr]
                     good = src is not None and src.kind == "expr" and isinstance(src.node, ast.Subscript) \
-                        and u(src.node.value) == "self._metric_fetchers" and isinstance(name_var, ast.Name) \
+                        and all(q.kind == "expr" and u(q.node) == "self._metric_fetchers" for q in fl.origin(src.node.value, src.nid)) \
+                        and isinstance(name_var, ast.Name) \
                         and all(q.kind == "iter" and q.nid == f.id for q in fl.origin(src.node.slice, src.nid)) \
                         and isinstance(fl._parent.get(id(c)), ast.Await)
                     fetch_sites.append((nid, c, good))
@@ -1053,11 +1055,11 @@ def build_controls(prog: Program) -> list[tuple[str, str, str, str, str]]:
                    for x in ast.walk(m.node) if isinstance(x, ast.Try)):
         if t.handlers and any(isinstance(c, ast.Call) and method_call(c, "self._stream", "receive") for b in t.body for c in ast.walk(b)):
             h = t.handlers[0]
-            last = h.body[-1]
+            head = h.body[0]
             tgt = next((u(a.targets[0]) for b in t.body for a in ast.walk(b) if isinstance(a, ast.Assign)), "_retry")
             add("retry receive in _fetch_next", STEPS, src_patch(
-                fnx.module, last.lineno, last.end_lineno or last.lineno,
-                lambda t_, last=last, tgt=tgt: t_ + f"{' ' * last.col_offset}{tgt} = await self._stream.receive()\n"), "C06.ONE")
+                fnx.module, head.lineno, head.end_lineno or head.lineno,
+                lambda t_, head=head, tgt=tgt: f"{' ' * head.col_offset}{tgt} = await self._stream.receive()\n" + t_), "C06.ONE")
             break
     # 3PH: one phase read twice, another never
     ph = prog.func(f"{ENGINE}:FormulaEngine3Phase._run")
